@@ -863,14 +863,32 @@ class Executor(Engine):
         self._ground_cache = out
         return out
 
-    def inductive_axioms(self):
+    def inductive_axioms(self, only=()):
         """INDUCTIVE_LEMMAS (label, var, P): `forall var >= 0: P(var)` used as a hypothesis; its base case P(0) and its step
         P(k) -> P(k+1) are obligations of the same run (generate_lemmas), i.e. the framework applies induction on the naturals"""
         out = []
         for lab, var, text in getattr(self, 'inductive', []):
+            if lab not in only:
+                continue
             g, a = self.spec_bool(f'forall(lambda {var}: implies({var} >= 0, {text}))', {}, old={}, ghosts={})
             out += a + [g]
         return out
+
+    def _strip_forall(self, text):
+        """forall(lambda x=T, ..: body) -> ({x: fresh constant, .., '__wf__': [...]}, body text); other texts unchanged"""
+        env_ = {'__wf__': []}
+        node_ = ast.parse(text.strip(), mode='eval').body
+        if isinstance(node_, ast.Call) and isinstance(node_.func, ast.Name) and node_.func.id == 'forall' \
+                and isinstance(node_.args[0], ast.Lambda):
+            lam = node_.args[0]
+            defs = [None] * (len(lam.args.args) - len(lam.args.defaults)) + list(lam.args.defaults)
+            for arg, d_ in zip(lam.args.args, defs):
+                ty_ = INT if d_ is None else parse_type(ast.unparse(d_), self.aliases)
+                v_, wf_ = self.fresh_value(arg.arg + '_lem', ty_)
+                env_[arg.arg] = v_
+                env_['__wf__'] += wf_
+            return env_, ast.unparse(lam.body)
+        return env_, text
 
     def generate_lemmas(self, modname, lemmas):
         """LEMMAS of a contract module: statements over the CONTRACTS alone (laws that must follow from the postconditions, e.g.
@@ -881,16 +899,64 @@ class Executor(Engine):
         for lab, text in _labelled(self.axioms):
             g, a = self.spec_bool(text, {}, old={}, ghosts={})
             pc += a + [g]
-        for lab, text in _labelled(lemmas):
-            g, a = self.spec_bool(text, {}, old={}, ghosts={})
-            self.obls.append(Obligation(f'lemmas.{modname}#lemma[{lab}]', pc + a, g, 'lemma', 0, f'lemmas:{modname}'))
+        pc0 = list(pc)           # (the induction obligations themselves must not assume the inductive lemmas)
+        proved_texts = {}
+        ind = {lab: (var, text) for lab, var, text in getattr(self, 'inductive', [])}
+        for ent in lemmas:
+            lab, text = ent[0], ent[1]
+            opts = ent[2] if len(ent) > 2 else {}
+            hyps = list(pc0)
+            env_, body_text = self._strip_forall(text)
+            for wf_ in env_.pop('__wf__', []):
+                hyps.append(wf_)
+            # `uses`: instances P(k := expr) of inductive lemmas of this module (expr over the lemma's own variables);
+            # `also`: lemmas stated earlier in this list (all are obligations of the same run)
+            for il, kexpr in opts.get('uses', []):
+                var, itext = ind[il]
+                kv_, ka = self.spec_eval(kexpr, env_, {}, {})
+                gi, ai = self.spec_bool(itext, dict(env_, **{var: kv_}), old={}, ghosts={})
+                hyps += ka + ai + [z3.Implies(to_int(kv_) >= 0, gi)]
+            for other in opts.get('also', []):
+                if isinstance(other, tuple):
+                    # an explicit instance of an earlier lemma: {its variable: expression over this lemma's variables}
+                    oname, subst = other
+                    oenv, obody = self._strip_forall(proved_texts[oname])
+                    oenv.pop('__wf__', None)
+                    inst = {}
+                    for v_ in oenv:
+                        val_, av = self.spec_eval(subst[v_], env_, {}, {})
+                        hyps += av
+                        inst[v_] = coerce(val_, oenv[v_].ty)
+                    go, ao = self.spec_bool(obody, inst, old={}, ghosts={})
+                else:
+                    go, ao = self.spec_bool(proved_texts[other], {}, old={}, ghosts={})
+                hyps += ao + [go]
+            g, a = self.spec_bool(body_text, env_, old={}, ghosts={})
+            self.obls.append(Obligation(f'lemmas.{modname}#lemma[{lab}]', hyps + a, g, 'lemma', 0, f'lemmas:{modname}'))
+            proved_texts[lab] = text
+        pc = pc0
         for lab, var, text in getattr(self, 'inductive', []):
             k0 = {var: V(INT, z3.IntVal(0))}
             g, a = self.spec_bool(text, k0, old={}, ghosts={})
             self.obls.append(Obligation(f'lemmas.{modname}#induction-base[{lab}]', pc + a, g, 'lemma', 0, f'lemmas:{modname}'))
             kv = z3.Const(var + '!ind', z3.IntSort())
-            gk, ak = self.spec_bool(text, {var: V(INT, kv)}, old={}, ghosts={})
-            gk1, ak1 = self.spec_bool(text, {var: V(INT, kv + 1)}, old={}, ghosts={})
+            # P(k) of the form forall(lambda x.., body(x.., k)): induct for FIXED x.. (fresh constants) -- the induction hypothesis is
+            # then body(x.., k) itself and needs no instantiation; the conclusion for all x.. follows since they are arbitrary
+            env_ = {}
+            body_text = text
+            node_ = ast.parse(text.strip(), mode='eval').body
+            if isinstance(node_, ast.Call) and isinstance(node_.func, ast.Name) and node_.func.id == 'forall' \
+                    and isinstance(node_.args[0], ast.Lambda):
+                lam = node_.args[0]
+                defs = [None] * (len(lam.args.args) - len(lam.args.defaults)) + list(lam.args.defaults)
+                for arg, d_ in zip(lam.args.args, defs):
+                    ty_ = INT if d_ is None else parse_type(ast.unparse(d_), self.aliases)
+                    v_, wf_ = self.fresh_value(arg.arg + '_ind', ty_)
+                    env_[arg.arg] = v_
+                    pc = pc + wf_
+                body_text = ast.unparse(lam.body)
+            gk, ak = self.spec_bool(body_text, dict(env_, **{var: V(INT, kv)}), old={}, ghosts={})
+            gk1, ak1 = self.spec_bool(body_text, dict(env_, **{var: V(INT, kv + 1)}), old={}, ghosts={})
             self.obls.append(Obligation(f'lemmas.{modname}#induction-step[{lab}]', pc + ak + ak1 + [kv >= 0, gk], gk1, 'lemma', 0,
                                         f'lemmas:{modname}'))
         return self.obls[n0:]
@@ -969,7 +1035,7 @@ class Executor(Engine):
             g, a = self.spec_bool(text, {}, old={}, ghosts={})
             pc += a + [g]
         pc += self.ground_axioms()
-        pc += self.inductive_axioms()
+        pc += self.inductive_axioms(c.d.get('uses_lemmas', ()))     # only the inductive lemmas the contract asks for
         c.pre_pc = list(pc)
         st = State(env, pc, z3.K(c.bag_ty.elem.sort(), z3.IntVal(0)) if c.bag_ty else None, old)
         exits = self.exec_block(fnode.body, st)
